@@ -84,6 +84,12 @@ func runC01(w *mon.W) {
 		}
 		lay := gen.RandLayout(r)
 		header := r.Intn(4) == 0
+		bigEntry := -1
+		if k >= nFiles {
+			// files with 20,000..100,000-base records go through every entry point in turn
+			bigEntry = (k - nFiles) % 6
+			header = bigEntry >= 3
+		}
 		file := gen.WriteGBFile(recs, lay, header, r)
 		w.Begin(id, file)
 
@@ -146,6 +152,9 @@ func runC01(w *mon.W) {
 		entry := ""
 		var p string
 		mode := r.Intn(6)
+		if bigEntry >= 0 {
+			mode = []int{0, 1, 5, 0, 1, 2}[bigEntry] // Read, Parse (ParseMulti if several records), ReadMulti, ParseFlat, ReadFlat, ReadFlatGz
+		}
 		switch {
 		case header:
 			switch mode % 3 {
